@@ -191,7 +191,7 @@ def bd_problem(rng):
     h1 = a + a.T
     b = np.array([[rng.randint(-2, 2) for _ in range(N)] for _ in range(N)], dtype=float)
     h2 = b + b.T
-    return dict(E=[e.tolist() for e in E], h1=h1.tolist(), h2=h2.tolist(), sizes=[n0, n1])
+    return dict(E=[e.tolist() for e in E], h1=h1.tolist(), h2=h2.tolist(), sizes=[n0, n1], solver1=rng.random() < 0.35)
 
 
 def bd_build(prob, faults):
@@ -222,8 +222,17 @@ def bd_build(prob, faults):
             return h2[sl[i], sl[j]]
         return zero
 
+    def solver_one_arg(Y):
+        # the deprecated one-argument signature: wrapped by _preprocess_sylvester (two blocks, Hermitian)
+        cnt.tick()
+        return base(Y, (0, 1))
+
     H = BlockSeries(eval=ev, shape=(2, 2), n_infinite=1, name="H")
-    out = block_diagonalize(H, solve_sylvester=solver)
+    import warnings
+
+    with warnings.catch_warnings():
+        warnings.simplefilter("ignore")
+        out = block_diagonalize(H, solve_sylvester=solver_one_arg if prob.get("solver1") else solver)
     return out, H, cnt
 
 
